@@ -205,6 +205,10 @@ def run(db, chk) -> None:
     if len(cs) != 1:
         raise AnalysisError("facade delegation not found")
     bnd = H.bind_call(f2, cs[0])
+
+    for _p, _src, _v in H.rebinds_of_params(fac, ["consecutive_kernel_delay", "streams", "visualize", "visualize_pctg", "show_idle_interval_stats"]):
+        chk.ob("C06.R-facade-integrity", f"facade forwards parameter {_p} unmodified", _v == "default-if-none", ta.loc(fac), found=_src, accepted="no re-binding, or `if p is None: p = <default>`",
+               why="`p = p or default` replaces legitimate falsy values (a threshold of 0, an empty selection) by the default")
     def derives(arg, pn):
         """the argument is the facade's like-named parameter, or a loop variable over the facade's plural parameter (rank <- ranks)"""
         if H.name_id(arg) == pn and pn in H.param_names(fac):
